@@ -2472,14 +2472,16 @@ func (a *Authenticator) exchangeKey(ctx context.Context, negotiation *SecurityNe
 			slog.Info(fmt.Sprintf("🔑 CLIENT: Receiving key - length: %d, protocol: %d, duration: %d, inputLen: %d",
 				keyLength, protocol, duration, inputLen), "destination", "cedar")
 
-			// Read encrypted key data
-			encryptedKey := make([]byte, inputLen)
-			for i := 0; i < inputLen; i++ {
-				b, err := msg.GetChar(ctx)
-				if err != nil {
-					return fmt.Errorf("failed to get encrypted key byte %d: %w", i, err)
-				}
-				encryptedKey[i] = b
+			// Read encrypted key data. inputLen is peer-controlled: reject a
+			// negative value, and let GetBytes buffer the bytes that actually
+			// arrive before allocating for them, so the allocation is bounded
+			// by what the peer really sent.
+			if inputLen < 0 {
+				return fmt.Errorf("invalid encrypted key length %d", inputLen)
+			}
+			encryptedKey, err := msg.GetBytes(ctx, inputLen)
+			if err != nil {
+				return fmt.Errorf("failed to get encrypted key (%d bytes): %w", inputLen, err)
 			}
 
 			// TODO: Unwrap the key using the authenticator
